@@ -240,6 +240,17 @@ def leaf_obligations(rep):
             if o.replay and o.replay.get('fires') is True:
                 pass
             rep.add(o)
+    # the other half of the round trip: what the printers write is read back by the decoders of the quoted tokens (C04.dec.*).  The listed C04 findings stay with
+    # C04; an UNLISTED failure of a decoder obligation breaks print -> parse as well and is reported here too
+    sub2 = type(rep)('C04', rep.tier, C04.LEVEL)
+    for dname in lrtab.DIALECTS:
+        try:
+            C04.decode_strings(sub2, dname)
+        except Exception:
+            pass
+    for x in sub2.unlisted_failures():
+        if hasattr(x, 'status'):
+            rep.failed('C01.leaf.' + x.id.split('.', 1)[1], x.engine, x.detail, function=x.function, clause=x.clause, replay=x.replay)
 
 
 # ------------------------------------------------------------------ per-production inversion (bounded-representative)
